@@ -42,7 +42,7 @@ static vh::NamedCounter c_shim_hits("shim_hits"), c_shim_short("shim_short_count
     c_zero_ops("zero_length_calls"), c_iov_heap("iovcnt_above_inline_clone"), c_iov_empty("iovec_empty_elements"),
     c_conns("connections"), c_bytes("bytes_verified"), c_rcalls("reader_calls"), c_wcalls("writer_calls"),
     c_multi_buf("calls_larger_than_socket_buffer"), c_handler_conns("connections_via_start_loop_handler"),
-    c_os_stalls("vcpu_os_level_stalls");
+    c_os_stalls("vcpu_os_level_stalls"), c_stale_code("stale_event_code_left_by_timed_call");
 
 // ================================================================== syscall shim
 namespace shim {
@@ -453,13 +453,12 @@ struct CallMark {
     ~CallMark() { s.kind.store(-1, vh::MO); }
 };
 // ETIMEDOUT is allowed only for a timed call and not before now(at call) + timeout (5 ms slack, DESIGN 2.4)
-static void check_timeout(const Dir& D, const char* op, uint64_t tmo, uint64_t now_at_call) {
+static void check_timeout(const Dir& D, const char* op, uint64_t tmo, uint64_t now_at_call, uint64_t rt) {
     if (tmo == -1ULL) {
         vh::violation(std::string("timeout/untimed-call-timed-out:") + op, "a call on a stream without timeout returned ETIMEDOUT",
                       dir_witness(D).kv("op", op).str());
         return;
     }
-    uint64_t rt = vh::boottime_us();
     if (rt + 5000 < now_at_call + tmo)
         vh::violation(std::string("timeout/early:") + op, "ETIMEDOUT before the stream timeout had elapsed",
                       dir_witness(D).kv("op", op).kv("timeout_us", tmo).kv("photon_now_at_call", now_at_call).kv("boottime_at_return", rt).str());
@@ -469,6 +468,23 @@ static void check_timeout(const Dir& D, const char* op, uint64_t tmo, uint64_t n
 static inline void note_both_dir(CallSlot* other, uint64_t other_seq_before, bool other_in_call_before, bool went_eagain) {
     if (other && went_eagain && other_in_call_before && other->kind.load(vh::MO) >= 0 && other->seq.load(vh::MO) == other_seq_before)
         c_both_dir.add();
+}
+
+// After a call with a finite stream timeout the calling thread must not be left with a pending "event arrived"
+// wake-up code: the next sleep of this thread that ends by timeout would report it, i.e. the next wait_for_fd()
+// would return 0 at its timeout without removing its interest (a lost timeout; with epoll-ng the abandoned
+// registration points to a dead stack object). Nobody can legitimately send EOK to this thread here: it has
+// no interest registered, so a 1 us sleep that comes back "interrupted by EOK" carried the code in.
+static void probe_stale_code(const Dir& D, const char* op, ssize_t ret, int e) {
+    errno = 0;
+    int r = thread_usleep(1);
+    if (r < 0 && errno == EOK) {
+        c_stale_code.add();
+        vh::violation("wakeup/stale-event-code-left-by-timed-call",
+                      "a stream call with a timeout returned leaving an unconsumed event wake-up (EOK) pending on the calling thread; "
+                      "the thread's next sleep that ends by timeout reports 'event arrived' (wait_for_fd returns 0 at the timeout, interest not removed)",
+                      dir_witness(D).kv("op", op).kv("returned", (int64_t)ret).kv("errno", e).str());
+    }
 }
 
 // ================================================================== writer
@@ -509,7 +525,7 @@ static void run_writer(Dir& D) {
         c_wcalls.add();
         ssize_t ret;
         int e;
-        uint64_t t0;
+        uint64_t t0, rt_ret;
         {
             CallMark cm(D.wcall, op, n, off, tmo);
             s->timeout(tmo);
@@ -522,7 +538,9 @@ static void run_writer(Dir& D) {
             default: ret = s->send(B.iov, B.cnt); break;
             }
             e = errno;
+            rt_ret = vh::boottime_us();
         }
+        if (tmo != -1ULL) probe_stale_code(D, wop_name[op], ret, e);
         uint64_t moved = F.tx.load(vh::MO) - tx0;       // exact when the shim is live
         note_both_dir(oslot, oseq, oin, F.eagain_tx.load(vh::MO) != ea0);
         bool full = op == OP_FULL || op == OP_FULLV;
@@ -551,7 +569,7 @@ static void run_writer(Dir& D) {
             D.w_done.store(off, vh::MO);
         } else if (e == ETIMEDOUT) {
             c_timeout_w.add();
-            check_timeout(D, opn, tmo, t0);
+            check_timeout(D, opn, tmo, t0, rt_ret);
             if (!G.shim_live) {
                 // the number of bytes of this call that went out is unknown: end the direction here
                 finish_writer(D, off, off + (n ? n - 1 : 0));
@@ -602,7 +620,7 @@ static void run_reader(Dir& D) {
         c_rcalls.add();
         ssize_t ret;
         int e;
-        uint64_t t0;
+        uint64_t t0, rt_ret;
         {
             CallMark cm(D.rcall, op, n, off, tmo);
             s->timeout(tmo);
@@ -615,7 +633,9 @@ static void run_reader(Dir& D) {
             default: ret = s->recv(B.iov, B.cnt); break;
             }
             e = errno;
+            rt_ret = vh::boottime_us();
         }
+        if (tmo != -1ULL) probe_stale_code(D, rop_name[op], ret, e);
         note_both_dir(oslot, oseq, oin, F.eagain_rx.load(vh::MO) != ea0);
         bool full = op == OP_FULL || op == OP_FULLV;
         const char* opn = rop_name[op];
@@ -629,8 +649,6 @@ static void run_reader(Dir& D) {
             if (m != (size_t)ret) {
                 // is it the right data at a wrong position?
                 int64_t shift = 0;
-                uint8_t got = 0;
-                { auto h = B.hex_at(m, 1); got = (uint8_t)strtoul(h.c_str(), nullptr, 16); }
                 for (int64_t dlt = -4096; dlt <= 4096 && !shift; ++dlt)
                     if (dlt && (int64_t)(off + m) + dlt >= 0) {
                         uint64_t o2 = off + m + dlt;
@@ -667,7 +685,7 @@ static void run_reader(Dir& D) {
             }
         } else if (e == ETIMEDOUT) {
             c_timeout_r.add();
-            check_timeout(D, opn, tmo, t0);
+            check_timeout(D, opn, tmo, t0, rt_ret);
             size_t m = B.matched(D.key, off, n);    // bytes moved into the buffer before the deadline
             if (!full && m)
                 vh::violation(std::string("count/bytes-consumed-by-failed-recv:") + opn, "recv() failed with ETIMEDOUT although it had transferred bytes into the buffer",
@@ -829,10 +847,16 @@ static void* staller_entry(void* a) {
     return nullptr;
 }
 
+// photon::init() of two OS threads at the same time races on a process-wide flag (reset_handle_registed, the
+// pthread_atfork registration); that is not the subject of C10, so the vCPUs are brought up one after the other
+static std::mutex g_init_mu;
 static void vcpu_main(int v) {
     auto& vc = G.v[G.nv == 1 ? 0 : v];
-    if (photon::init(vc.engine, vc.et ? INIT_IO_SOCKET_EDGE_TRIGGER : INIT_IO_NONE) < 0)
-        vh::machinery_failure("photon::init failed");
+    {
+        std::lock_guard<std::mutex> g(g_init_mu);
+        if (photon::init(vc.engine, vc.et ? INIT_IO_SOCKET_EDGE_TRIGGER : INIT_IO_NONE) < 0)
+            vh::machinery_failure("photon::init failed");
+    }
     {
         Server server;
         bool is_server = v == 0, is_client = G.nv == 1 || v == 1;
@@ -847,6 +871,7 @@ static void vcpu_main(int v) {
         if (is_server) server.wait();
         thread_join(st);
     }
+    std::lock_guard<std::mutex> g(g_init_mu);
     photon::fini();
 }
 
